@@ -89,7 +89,7 @@ func c06Valid(p *driver.Plan) bool {
 func c06Gen(r *driver.Rand, thorough bool) *driver.Plan {
 	stage := driver.Pick(r, c06Stages...)
 	n := genLen(r, thorough)
-	p := c06Base(stage, n, driver.Pick(r, 0, 0, 1, 2, 5))
+	p := c06Base(stage, n, genCap(r))
 	p.Fn = r.Intn(60)
 	if !isGenerator(stage) {
 		p.FnArg = r.Intn(n + 2)
@@ -110,7 +110,7 @@ func c06Gen(r *driver.Rand, thorough bool) *driver.Plan {
 		p.InCaps = nil
 		for i := 0; i < k; i++ {
 			p.Inputs = append(p.Inputs, elems(i, r.Intn(4)))
-			p.InCaps = append(p.InCaps, driver.Pick(r, 0, 1, 3))
+			p.InCaps = append(p.InCaps, genCap(r))
 		}
 		if k == 0 {
 			p.Inputs = [][]int{}
